@@ -193,6 +193,10 @@ def run_one(ch):
             pieces.append((ch.pick("pdelay", [0.0, 0.01, 0.2]) if a else 0.0, stream[a:b_]))
     marks = {}
     script = [("wait_line",)] if ch.choose("trigger", 4) else []
+    if up["beh"] == 3 and script:
+        # plaintext upstream: what arrives is a TLS ClientHello full of random bytes -
+        # never interpret it (a chance CRLF in it would make the run irreproducible)
+        script = [("wait_bytes", 100)]
     for d, c in pieces:
         if d:
             script.append(("sleep", d))
